@@ -31,6 +31,9 @@ def np_reference(op, args):
         if any(_sym(a) for a in args):
             return npx.exact_solve(args[0], args[1])
         return np.linalg.solve(np.array(args[0].tolist(), dtype=float), np.array(args[1].tolist(), dtype=float))
+    if op.name == 'det' and _sym(args[0]):
+        a = np.asarray(args[0], dtype=object)
+        return a[0, 0] * a[1, 1] - a[0, 1] * a[1, 0]
     if op.group == 'fft' and _sym(args[0]):
         # numpy.fft on symbols: the exact DFT sum (n in {1, 2, 4})
         return npx._exact_dft(args[0], op.meta.get('n'), op.meta.get('axis', -1), op.meta['inverse'])
@@ -385,7 +388,7 @@ def units(tier, seed):
         add('zeroth/%s/D%d,P%d' % (op.name, D, P), 'h_zeroth', o=({'float_rel': 1e-12, 'exact_eval': True} if 'tight' in op.tags else None), opname=op.name, D=D, P=P)
         if (D, P) not in ((2, 2), (4, 3)):
             continue
-        if len(op.args) == 1 and op.group in ('elementwise', 'special') and op.args[0].dom in ('any', 'gtm1', 'abs1', 'unit', 'pos'):
+        if len(op.args) == 1 and op.group in ('elementwise', 'special') and op.args[0].dom in ('any', 'gtm1', 'abs1', 'unit', 'pos') and not op.args[0].cplx:
             add('zeroth/%s/tiny argument/D2,P1' % op.name, 'h_zeroth', o={'float_rel': 1e-11}, opname=op.name, D=2, P=1, scale='1/10000000000000')
     for cmpop in CMP:
         for rkind in ('utpm', 'scalar'):
